@@ -22,6 +22,7 @@ The randomness seam is not used (real TFP samplers).
 from __future__ import annotations
 
 import math
+import re
 import warnings
 
 import numpy as np
@@ -44,8 +45,10 @@ ASSUMPTIONS = [
     "the oracle is TFP itself (the property's own oracle): TFP's densities are not re-derived",
 ]
 BOUNDS = {
-    "quick": dict(wrappers=47, combos_per_row="(A,(),pos) (A,(),kw) (B,(2,),pos) (C,(2,),kw) (C,(),pos)", keys=4),
-    "thorough": dict(wrappers=47, combos_per_row="{A,B,C} x {(),(2,)} x {pos,kw}", keys=4),
+    "quick": dict(wrappers=47, combos_per_row="(A,(),pos) all operations; (A,(),kw) shape/dtype + staged-computation equivalence "
+                  "with the positional and closure forms; (C,(2,),kw) all operations; beta_quotient: (A,(),pos) simulate only", keys=4),
+    "thorough": dict(wrappers=47, combos_per_row="{A,B,C} x {(),(2,)} x {pos,kw} all operations; beta_quotient: the quick combinations "
+                     "of the other rows", keys=4),
 }
 JOBS = {"quick": 8, "thorough": 16}
 
@@ -175,6 +178,9 @@ def in_support(family, v, par):
 # --------------------------------------------------------------------------------------------
 
 
+_ADDR = re.compile(r"0x[0-9a-fA-F]+")
+
+
 def jaxpr_signature(jaxpr):
     """structural fingerprint of a jaxpr (primitives, data flow, literal values, static parameters); two equal
     fingerprints + equal constants = the same staged computation.  (str(jaxpr) is far too slow for the
@@ -213,10 +219,10 @@ def jaxpr_signature(jaxpr):
         elif isinstance(p, (tuple, list)):
             for i, q in enumerate(p):
                 sub(f"{k}[{i}]", q)
-        elif callable(p):
+        elif callable(p) or type(p).__name__ in ("WrappedFun",):
             h.update(getattr(p, "__name__", type(p).__name__).encode())
         else:
-            h.update(repr(p).encode())
+            h.update(_ADDR.sub("0x", repr(p)).encode())
 
     walk(jaxpr)
     return h.hexdigest()
@@ -231,10 +237,20 @@ def _points(row):
     return dict(A=A, B=B, C=Cc)
 
 
-def _combos(tier):
+# families whose TFP sampler / log_prob take 10-30 s to trace and compile (hypergeometric series): fewer combinations
+HEAVY = {"beta_quotient"}
+
+
+def _combos(tier, row):
+    """(point, sample_shape, form, mode); mode: full = every operation; staged = shape/dtype + equivalence of the
+    staged computation with the other form / the closure call; sim = shape/dtype + simulate on the fixed keys"""
     if tier == "quick":
-        return [("A", (), "pos"), ("A", (), "kw"), ("B", (2,), "pos"), ("C", (2,), "kw"), ("C", (), "pos")]
-    return [(pt, ss, form) for pt in "ABC" for ss in ((), (2,)) for form in ("pos", "kw")]
+        if row["wrapper"] in HEAVY:
+            return [("A", (), "pos", "sim")]
+        return [("A", (), "pos", "full"), ("A", (), "kw", "staged"), ("C", (2,), "kw", "full")]
+    if row["wrapper"] in HEAVY:
+        return [("A", (), "pos", "full"), ("A", (), "kw", "staged"), ("C", (2,), "kw", "full")]
+    return [(pt, ss, form, "full") for pt in "ABC" for ss in ((), (2,)) for form in ("pos", "kw")]
 
 
 def _other(pt):
@@ -286,14 +302,15 @@ def _run(row, tier, seed):
         def cval(tr):
             return tr.get_choices().get_value()
 
-        done = set()
         jit_cache, ops_cache, drawn = {}, {}, {}
-        for pt, ss, form in _combos(tier):
+        plan = []
+        for pt, ss, form, mode in _combos(tier, row):
             if form not in row["forms"]:
-                form = row["forms"][0]
-                if (pt, ss, form) in done:
-                    continue
-            done.add((pt, ss, form))
+                form, mode = row["forms"][0], "full"
+            if (pt, ss, form) not in [q[:3] for q in plan]:
+                plan.append((pt, ss, form, mode))
+        planned = {q[:3] for q in plan if q[3] == "full"}
+        for pt, ss, form, mode in plan:
             params = points[pt]
             params2 = points[_other(pt)] if pt != "C" else tuple(p[::-1] for p in points["C"])
             args = mk_args(form, params, ss)
@@ -326,6 +343,47 @@ def _run(row, tier, seed):
                 if np.dtype(sd.dtype) != exp_dtype:
                     fail("eval_shape", "dtype", expected=str(exp_dtype), actual=str(sd.dtype))
 
+            # (g) keyword == positional, closure call == direct call, Const-wrapped sample_shape == plain tuple:
+            # the staged computations (jaxpr + constants) of `key -> (value, score)` must be identical, which
+            # decides "same trace for the same key" for ALL keys; if the texts differ, both are executed.
+            def staged(fn):
+                cj = jax.make_jaxpr(fn)(keys[0])
+                return jaxpr_signature(cj.jaxpr), [np.asarray(c) for c in cj.consts]
+
+            def same_trace(op, fa, fb, what):
+                ctx.ev((row["id"], pt, ss, form, op, what), nontrivial=True)
+                try:
+                    (ta, ca), (tb, cb) = staged(fa), staged(fb)
+                    if ta == tb and len(ca) == len(cb) and all(np.array_equal(x, y) for x, y in zip(ca, cb)):
+                        ctx.note("staged_identical")
+                        return
+                    ra, rb = jax.jit(fa)(keys[0]), jax.jit(fb)(keys[0])
+                    ctx.note("staged_differ_executed")
+                    if not all(np.array_equal(np.asarray(x), np.asarray(y)) for x, y in zip(ra, rb)):
+                        fail(op, "trace", what=what, a=[np.asarray(x) for x in ra], b=[np.asarray(x) for x in rb])
+                except Exception as e:
+                    fail(op, f"exception:{type(e).__name__}", what=what, error=str(e)[:300])
+
+            def tr_out(tr):
+                return cval(tr), tr.get_score()
+
+            main = lambda k: tr_out(gf.simulate(k, args))
+
+            def staged_equivalences(direct):
+                if direct and form == "kw" and "pos" in row["forms"]:
+                    same_trace("kw_vs_pos", main, lambda k: tr_out(gf.simulate(k, mk_args("pos", params, ss))), "direct")
+                kw = dict(zip(names, params)) if form == "kw" else {}
+                pos = tuple(params) if form == "pos" else ()
+                if ss:
+                    kw["sample_shape"] = ss
+                same_trace("kw_vs_pos", main, lambda k: tr_out(gf(*pos, **kw).simulate(k, ())), "closure")
+                if ss:
+                    same_trace("const_sample_shape", main, lambda k: tr_out(gf.simulate(k, mk_args(form, params, ss, const=True))), "Const")
+
+            if mode == "staged":  # this form is compared with its twin at the level of the staged computation only
+                staged_equivalences(direct=True)
+                continue
+
             # (b) jitted simulate on the fixed keys: support, dtype/shape, score.  The parameters are arguments of
             # the jitted function (one compilation per (sample_shape, form, parameter shapes)); eager sampling
             # is avoided: TFP's rejection samplers re-compile their while-loops on every eager call.
@@ -353,7 +411,7 @@ def _run(row, tier, seed):
                     fail("simulate", "dtype", expected=str(exp_dtype), actual=str(vn.dtype))
                 if not in_support(row["support"], vn, par_np):
                     fail("simulate", "support", value=vn, key=ki)
-                if not math.isfinite(o) or not close(sc, o):
+                if not close(sc, o):  # (a boundary sample with a non-finite TFP density is TFP's business: both sides agree)
                     fail("simulate", "score", value=vn, expected=o, actual=np.asarray(sc), key=ki)
                 if not np.array_equal(np.asarray(rv), vn):
                     fail("simulate", "retval", value=vn, retval=np.asarray(rv))
@@ -367,6 +425,8 @@ def _run(row, tier, seed):
             o0b, o1b = oracle(params2, v0), oracle(params2, v1)
             if pt == "A" and ctx.samples == []:
                 ctx.sample(dict(**where, value=np.asarray(v0), score=o0))
+            if mode == "sim":
+                continue
 
             # (d)-(f) assess, importance (full constraint), update {new value, changed arguments, both} and the
             # closure form of assess: ONE jitted bundle per (sample_shape, form, parameter shapes) - eager TFP
@@ -417,32 +477,7 @@ def _run(row, tier, seed):
                         fail(op if op != "closure_assess" else "kw_vs_pos", field, expected=np.asarray(e), actual=a,
                              value=np.asarray(v1), previous_value=np.asarray(v0))
 
-
-            # (g) keyword == positional, closure call == direct call, Const-wrapped sample_shape == plain tuple:
-            # the staged computations (jaxpr + constants) of `key -> (value, score)` must be identical, which
-            # decides "same trace for the same key" for ALL keys; if the texts differ, both are executed.
-            def staged(fn):
-                cj = jax.make_jaxpr(fn)(keys[0])
-                return jaxpr_signature(cj.jaxpr), [np.asarray(c) for c in cj.consts]
-
-            def same_trace(op, fa, fb, what):
-                ctx.ev((row["id"], pt, ss, form, op, what), nontrivial=True)
-                try:
-                    (ta, ca), (tb, cb) = staged(fa), staged(fb)
-                    if ta == tb and len(ca) == len(cb) and all(np.array_equal(x, y) for x, y in zip(ca, cb)):
-                        ctx.note("staged_identical")
-                        return
-                    ra, rb = jax.jit(fa)(keys[0]), jax.jit(fb)(keys[0])
-                    ctx.note("staged_differ_executed")
-                    if not all(np.array_equal(np.asarray(x), np.asarray(y)) for x, y in zip(ra, rb)):
-                        fail(op, "trace", what=what, a=[np.asarray(x) for x in ra], b=[np.asarray(x) for x in rb])
-                except Exception as e:
-                    fail(op, f"exception:{type(e).__name__}", what=what, error=str(e)[:300])
-
-            def tr_out(tr):
-                return cval(tr), tr.get_score()
-
-            main = lambda k: tr_out(gf.simulate(k, args))
+            # (g) keyword == positional on the same keys (when both forms are run in full)
             drawn[(pt, ss, form)] = [(np.asarray(a), np.asarray(b)) for a, b in zip(samples, scores)]
             twin = drawn.get((pt, ss, "pos" if form == "kw" else "kw"))
             if twin is not None:  # the same keys through the other invocation form: bit-identical traces
@@ -450,16 +485,7 @@ def _run(row, tier, seed):
                 ctx.note("kw_vs_pos_sample_comparisons", KEYS)
                 if not all(np.array_equal(a[0], b[0]) and np.array_equal(a[1], b[1]) for a, b in zip(drawn[(pt, ss, form)], twin)):
                     fail("kw_vs_pos", "trace", what="4 keys", this=drawn[(pt, ss, form)][0], other=twin[0])
-            elif form == "kw" and "pos" in row["forms"]:
-                same_trace("kw_vs_pos", main, lambda k: tr_out(gf.simulate(k, mk_args("pos", params, ss))), "direct")
-            kw = dict(zip(names, params)) if form == "kw" else {}
-            pos = tuple(params) if form == "pos" else ()
-            if ss:
-                kw["sample_shape"] = ss
-            same_trace("kw_vs_pos", main, lambda k: tr_out(gf(*pos, **kw).simulate(k, ())), "closure")
-            if ss:
-                same_trace("const_sample_shape", main, lambda k: tr_out(gf.simulate(k, mk_args(form, params, ss, const=True))), "Const")
-
+            staged_equivalences(direct=twin is None and (pt, ss, "pos") not in planned)
 
     return run
 
@@ -479,5 +505,8 @@ def _table_coverage(ctx):
 
 def cases(tier, seed):
     yield Case("table-coverage", _table_coverage, dict(rows=len(ROWS)))
-    for row in ROWS:
+    # slow-to-compile families first, so that the static round-robin partition spreads them over the workers
+    slow = ["beta_quotient", "beta_binomial", "binomial", "beta", "dirichlet_multinomial", "non_central_chi2", "multinomial", "skellam"]
+    order = sorted(ROWS, key=lambda r: slow.index(r["wrapper"]) if r["wrapper"] in slow else len(slow))
+    for row in order:
         yield Case(row["id"], _run(row, tier, seed), dict(wrapper=row["wrapper"], tfd=row["cls"], parameters=list(row["names"]), forms=list(row["forms"])))
